@@ -18,7 +18,7 @@ TIERS = {
 }
 RULE = ("one seed -> one base scenario: kind = read one value (all ~95 declared values of banks 0, 0-legacy, 1, 202-207, "
         "seed-indexed) | read_raw | read_all with latch | read_all without latch; seeded image (random / all-ones / "
-        "MASK-TMASK-like), 'last accessible location' anywhere from 0 to 254 (biased to the declared end and to cuts "
+        "MASK-TMASK-like / every value on one of its own boundaries), 'last accessible location' anywhere from 0 to 254 (biased to the declared end and to cuts "
         "through a value), holes at seeded positions, gear or device addressing, lock byte initially 0xFF / 0x55 / 0xAA, "
         "optional concurrent mutation of the image between commands; the base runs fault-free and then once per "
         "(drop | garble, command index) - all indices in both tiers for single values, strided in quick for read_all. "
@@ -26,7 +26,7 @@ RULE = ("one seed -> one base scenario: kind = read one value (all ~95 declared 
         "(command, outcome) sequence.")
 ASSUMPTIONS = [
     "memory model per DESIGN.md appendix A.2; with the latch (lock byte 0xAA on a latching bank) reads come from the snapshot taken when 0xAA was written; write enable is reset by any frame other than the DTR / write / query-DTR family (the reading the repo's own fake gear uses as well)",
-    "interpretation of raw bytes uses the library's own check_raw / raw_to_value (C11 is not judged here)",
+    "interpretation of raw bytes: class-level rules re-implemented in sim/memsim.ref_interpret (scale byte -6..6, MASK / TMASK patterns, range limits -> Invalid, number / temperature / version / boolean / string encodings, the two special values of bank 1); the per-value parameters (signedness, which flags exist, limits, fixed scale factor) are taken from the library's declaration - the static memory map itself is C11 and not judged",
     "a dropped answer is indistinguishable from an unimplemented location: MemoryLocationNotImplemented (single value) or omission of the values touching it (read_all) is then the expected outcome",
 ]
 COMPONENTS = {"real": ["dali.memory.location.MemoryValue.read / read_raw / from_list, MemoryBank.read_all / LastAddress",
@@ -62,7 +62,7 @@ def gen_base(seed, tier="quick"):
     return {"engine": "busim", "property": PROP, "seed": seed, "kind": kind, "bank": key, "value": vname,
             "last": last, "holes": sorted(holes), "lock": r.choice([0xFF, 0xFF, 0x55, 0xAA, 0x33]),
             "unit": r.choice(["gear", "gear", "device"]), "short": r.randrange(64),
-            "pattern": r.choice(["random", "random", "ff", "fe", "mixed"]),
+            "pattern": r.choice(["random", "random", "ff", "fe", "mixed", "edges", "edges"]),
             "mutate": r.random() < 0.35, "fault": None}
 
 
@@ -166,7 +166,7 @@ def run_plan(plan):
               site=type(sr.exc).__name__ if sr.exc else sr.status)
         else:
             rawb = bytes(raw)
-            exp = rawb if kind == "read_raw" else (v.check_raw(rawb) or v.raw_to_value(rawb))
+            exp = rawb if kind == "read_raw" else memsim.ref_interpret(v, rawb)
             if sr.value != exp:
                 V("wrong-value", "%s.%s: unit shows %s -> %r, sequence returned %r" % (
                     key, v.name, list(rawb), exp, sr.value), site=kind)
@@ -213,7 +213,7 @@ def run_plan(plan):
                 if any(x is None for x in bs):
                     continue
                 rawb = bytes(bs)
-                exp[vv.name] = vv.check_raw(rawb) or vv.raw_to_value(rawb)
+                exp[vv.name] = memsim.ref_interpret(vv, rawb)
             got = {vv.name: val for vv, val in sr.value.items()}
             if set(got) != set(exp):
                 extra, lost = sorted(set(got) - set(exp)), sorted(set(exp) - set(got))
@@ -306,7 +306,9 @@ def run_seed(seed, tier):
         r = plans.rng_for(seed, PROP + "-variants")
         idxs = sorted(set(idxs[:4] + idxs[-3:] + r.sample(idxs, 9)))
     for i in idxs:
-        for fk in ("drop", "garble"):
+        for fk in ("drop", "garble", "garble-same"):
+            if fk == "garble-same" and tier == "quick" and (i + seed) % 3:
+                continue
             p = copy.deepcopy(base)
             p["fault"] = [fk, i]
             out.append(run_plan(p))
